@@ -173,6 +173,10 @@ func Select(a, i *Term) *Term {
 }
 func Store(a, i, v *Term) *Term { return A("store", a, i, v) }
 func Add(a, b *Term) *Term      { return A("+", a, b) }
+
+// Sidx is the address of element i of a slice with offset off: off + i, kept behind an uninterpreted
+// symbol (axiomatised in the prelude) so that quantifier patterns over slice elements match.
+func Sidx(off, i *Term) *Term { return A("sidx", off, i) }
 func Sub(a, b *Term) *Term      { return A("-", a, b) }
 func Le(a, b *Term) *Term       { return A("<=", a, b) }
 func Lt(a, b *Term) *Term       { return A("<", a, b) }
